@@ -159,6 +159,28 @@ def make_args(rng_seed, idx):
     return {'s': s, 't': t, 'g': g, 'g2': g2, 'm': m}
 
 
+def scribble(r, A):
+    """Apply the DOCUMENTED in-place operations to a result (rearrange / reset_variables on a Tree; |=, -=, top
+    assignment on a Graph): the caller owns the result, so this must never reach the arguments of the call."""
+    from penman import layout
+    from penman.graph import Graph
+    from penman.tree import Tree
+    if isinstance(r, Tree):
+        layout.rearrange(r, key=A['m'].canonical_order, attributes_first=True)
+        layout.rearrange(r, key=lambda role: role[::-1])
+        r.reset_variables('zz{i}')
+    elif isinstance(r, Graph):
+        r |= Graph([('zz', ':instance', 'zz'), ('zz', ':zz', 'a')], epidata={('zz', ':zz', 'a'): []})
+        r -= Graph(list(r.triples[:2]))
+        vs = sorted(r.variables(), key=repr)
+        if vs:
+            r.top = vs[-1]
+    elif isinstance(r, (list, tuple)):
+        for x in r:
+            if isinstance(x, (Tree, Graph)):
+                scribble(x, A)
+
+
 def run_call(fn, A):
     try:
         return dump(common.timed(fn, A, seconds=10))
@@ -197,6 +219,19 @@ def one_case(args):
             continue
         r1 = run_call(fn, A)
         after = snapshot(A)
+        if after == base and idx % 3 == 0:
+            # the result is the CALLER'S object: editing it in place must not reach the arguments (no shared sub-objects)
+            try:
+                scribble(common.timed(fn, A, seconds=10), A)
+            except Exception:        # noqa
+                pass
+            after = snapshot(A)
+            if after != base:
+                changed = [k for k in base if base[k] != after[k]]
+                findings.append(('result-aliases-argument', f'editing the result of {name} in place changed the argument(s) {changed}',
+                                 dict(case0, call=name)))
+                A = make_args(seed, idx)
+                after = base
         if after != base:
             changed = [k for k in base if base[k] != after[k]]
             findings.append(('argument-mutated', f'{name} changed its argument(s) {changed}', dict(case0, call=name)))
@@ -256,7 +291,11 @@ def _worker_digests(args):
 
 CLI_OPTS = [[], ['--amr', '--reify-edges'], ['--amr', '--canonicalize-roles', '--rearrange', 'canonical'],
             ['--reconfigure', 'canonical'], ['--amr', '--check'], ['--triples'], ['--reify-attributes', '--make-variables', 'v{i}'],
-            ['--amr', '--dereify-edges', '--indicate-branches', '--indent', '0'], ['--amr', '--reify-edges', '--dereify-edges', '--compact']]
+            ['--amr', '--dereify-edges', '--indicate-branches', '--indent', '0'], ['--amr', '--reify-edges', '--dereify-edges', '--compact'],
+            # several sort keys at once: their ORDER is part of the request
+            ['--rearrange', 'alphanumeric,inverted-last'], ['--rearrange', 'inverted-last,alphanumeric'],
+            ['--amr', '--rearrange', 'attributes-first,inverted-last,alphanumeric'], ['--amr', '--rearrange', 'canonical,attributes-first'],
+            ['--reconfigure', 'canonical,original'], ['--amr', '--reconfigure', 'original,canonical']]
 
 
 def run(chk):
